@@ -1,5 +1,113 @@
+import NA.Model.IosEngine
+import NA.Spec.IosCfgDev
 import NA.Core.IOUtil
-/-! Driver stub for C02 (not built yet): echoes its input. -/
+/-!
+Driver `nadrv-c02`: the IOS diff engine on fragment F2 (NA/Model/IosEngine.lean) and the strict
+specification-side device (NA/Spec/IosCfgDev.lean).
+
+Input: one case per line, tab separated `key=value` fields
+  ai / bi  interfaces `name~vrf~addr~shut~inspect~acl dir^acl dir;…`
+  aa / ba  ACLs       `name#text~nolog~orig~act#…;…`            (act: p|d|r)
+  ar / br  routes     `text~vrf~dst~sortKey;…`
+  sa       Myers scripts of ACL pairs `aName>bName:lowA,highA,lowB,highB/…;…`
+  xs       (optional) a script to execute on the strict device instead of the model's: not used
+Output: tab separated
+  rej=0|1  valid=…  msgs=m1|m2  script=l1|l2|…  hits=h:n,…  exec=ok|rejected@k:why  final=<dump>
+  hyp=…    (decidable hypotheses of the theorems of NA.Props.F2, see there)
+-/
+namespace NA.Drv.C02
+open NA.F2 NA.IOUtil
+open NA.Acl (Range Act)
+
+def splitOnNE (s : String) (sep : String) : List String := if s.isEmpty then [] else s.splitOn sep
+
+def parseAct (s : String) : Act := if s == "p" then .permit else if s == "d" then .deny else .remark
+
+def parseBinds (s : String) : List Bind :=
+  (splitOnNE s "^").map fun b =>
+    match b.splitOn " " with
+    | [a, d] => ⟨a, d⟩
+    | _ => ⟨b, ""⟩
+
+def parseIntfs (s : String) : List Intf :=
+  (splitOnNE s ";").map fun i =>
+    match i.splitOn "~" with
+    | [n, v, a, sh, ins, bs] => ⟨n, v, a, sh == "1", ins == "1", parseBinds bs⟩
+    | _ => { name := i }
+
+def parseALine (s : String) : ALine :=
+  match s.splitOn "~" with
+  | [t, nl, o, a] => ⟨t, nl, o, parseAct a⟩
+  | _ => ⟨s, s, s, .remark⟩
+
+def parseAcls (s : String) : List (Name × List ALine) :=
+  (splitOnNE s ";").map fun a =>
+    match a.splitOn "#" with
+    | n :: ls => (n, ls.map parseALine)
+    | [] => ("", [])
+
+def parseRoutes (s : String) : List Route :=
+  (splitOnNE s ";").map fun r =>
+    match r.splitOn "~" with
+    | [t, v, d, k] => ⟨t, v, d, k.toNat?.getD 0⟩
+    | _ => ⟨r, "", r, 0⟩
+
+def parseRange (s : String) : Option Range :=
+  match (splitComma s).mapM String.toNat? with
+  | some [a, b, c, d] => some ⟨a, b, c, d⟩
+  | _ => none
+
+def parseScripts (s : String) : List ((Name × Name) × List Range) :=
+  (splitOnNE s ";").filterMap fun e =>
+    match e.splitOn ":" with
+    | [k, rs] =>
+      match k.splitOn ">" with
+      | [a, b] => some ((a, b), (splitOnNE rs "/").filterMap parseRange)
+      | _ => none
+    | _ => none
+
+def fieldsOf (line : String) : List (String × String) :=
+  (splitTab line).map fun f =>
+    match f.splitOn "=" with
+    | k :: rest => (k, "=".intercalate rest)
+    | [] => ("", "")
+
+def get (fs : List (String × String)) (k : String) : String := (fs.lookup k).getD ""
+
+def countHits (hs : List String) : String :=
+  let keys := (NA.F1.sortS hs).eraseDups
+  ",".intercalate (keys.map fun k => k ++ ":" ++ toString (hs.filter (· == k)).length)
+
+/-- Every script the engine used is a valid script for its pair. -/
+def usedScriptsValid (r : Result) : Bool :=
+  r.acts.all fun
+    | .edit _ al bl rs => al.isEmpty || (pairCells al bl rs).isSome
+    | _ => true
+
+def answer (line : String) : String :=
+  let fs := fieldsOf line
+  let a : Config := { intfs := parseIntfs (get fs "ai"), acls := parseAcls (get fs "aa"), routes := parseRoutes (get fs "ar") }
+  let b : Config := { intfs := parseIntfs (get fs "bi"), acls := parseAcls (get fs "ba"), routes := parseRoutes (get fs "br") }
+  let sc : Scripts := { acl := parseScripts (get fs "sa") }
+  let r := engine a b sc
+  if !r.ok then
+    "\t".intercalate ["rej=1", "msgs=" ++ "|".intercalate r.msgs, "hits=" ++ countHits r.hits]
+  else
+    let ex := NA.IosDev2.run (NA.IosDev2.ofConfig a) r.script
+    let exec := match ex.2 with
+      | none => "ok"
+      | some (k, why) => s!"rejected@{k}:{why}"
+    "\t".intercalate [
+      "rej=0",
+      "valid=" ++ (if usedScriptsValid r then "1" else "0"),
+      "msgs=" ++ "|".intercalate r.msgs,
+      "script=" ++ "|".intercalate (showChanges r.script),
+      "hits=" ++ countHits r.hits,
+      "exec=" ++ exec,
+      "final=" ++ NA.IosDev2.dump ex.1]
+
+end NA.Drv.C02
+
 def main (_ : List String) : IO UInt32 := do
-  NA.IOUtil.eachLine id
+  NA.IOUtil.eachLine NA.Drv.C02.answer
   return 0
